@@ -398,10 +398,20 @@ fn check_treadmill(w: &mut World, found: &BTreeMap<u64, usize>, info: GcInfo, ex
     if exact {
         for (a, k) in member.iter() {
             if !live_addrs.contains_key(a) {
+                let who: Vec<String> = w
+                    .objs
+                    .values()
+                    .filter(|o| o.addr == *a)
+                    .map(|o| {
+                        let refs: Vec<u64> = w.refs.iter().filter(|(_, r)| r.referent == o.id).map(|(id, _)| *id).collect();
+                        let eph: Vec<(u64, u64)> = w.ephemerons.iter().filter(|e| e.key == o.id || e.value == o.id).map(|e| (e.key, e.value)).collect();
+                        format!("model object {} (kind {}), referent of references {:?}, in ephemerons {:?}, scanned {} times in this pause", o.id, o.kind, refs, eph, w.pause.scanned_ids.get(&o.id).cloned().unwrap_or(0))
+                    })
+                    .collect();
                 violation(
                     "C36",
                     "dead-object-kept",
-                    format!("after full-heap GC (pause {}): {:#x} in the {} is not a surviving object", w.pause.n, a, names[*k]),
+                    format!("after full-heap GC (pause {}): {:#x} in the {} is not a surviving object ({:?})", w.pause.n, a, names[*k], who),
                 );
             }
         }
@@ -488,7 +498,12 @@ pub fn at_resume(w: &mut World, found: &BTreeMap<u64, usize>, info: GcInfo, used
     check_accounting(w);
     check_region_map(w);
     check_lines(w, found, info);
-    check_treadmill(w, found, info, exact);
+    // "nothing dead is kept" needs the model to know every survivor: reference objects and
+    // ephemeron tables make mmtk-core keep objects the shadow heap has already let go (referents
+    // of dropped reference objects until their table entry is retired, values traced for keys the
+    // binding must assume alive), so that part only runs when the run has registered neither.
+    let exact_los = exact && w.refs.is_empty() && w.ephemerons.is_empty() && w.counters.get("ephemerons_added").cloned().unwrap_or(0) == 0;
+    check_treadmill(w, found, info, exact_los);
     if exact && info.last_exhaustive && w.spec.cfg.reclaim_cycles {
         check_floor(w, found, used);
     }
